@@ -125,6 +125,21 @@ class World:
             def rvs(*params, size=None, random_state=None):
                 return w.col('u', w._b_from_rs(random_state), size[0])
 
+            @staticmethod
+            def logpdf(x, *params):
+                ctx = w.ctx
+                x = np.atleast_1d(np.asarray(x, dtype=object) if ctx.symbolic else np.asarray(x, dtype=float))
+                out = np.empty(len(x), dtype=object if ctx.symbolic else float)
+                for i in range(len(x)):
+                    out[i] = ctx.apply_uf('LOGPDF_u', [x[i]])
+                return out
+
+            @staticmethod
+            def pdf(x, *params):
+                ctx = w.ctx
+                lp = PriorDist2.logpdf(x, *params)
+                return np.exp(lp) if not ctx.symbolic else np.array([v.exp() for v in lp], dtype=object)
+
         def sim(*params, batch_size=1, random_state=None, meta=None):
             w.sim_args[meta['batch_index']] = params       # what the simulator was asked to simulate
             return w.col('y', meta['batch_index'], batch_size)
